@@ -510,10 +510,88 @@ impl<'a> Job for ProofJob<'a> {
     }
 }
 
+// BATCH MERKLE OPENINGS: serialize_nodes / deserialize
+// ------------------------------------------------------------------------------------------------
+// The node vectors of a batch opening have their own codec (the claimed leaves and the depth
+// travel separately): decode(encode(opening)) must be the opening, on the in-memory reader and on
+// the streaming reader over any chunking, for every hasher (digests of 24, 31 and 32 bytes).
+
+struct OpeningJob<'a> {
+    ch: &'a mut Chooser,
+    ctx: &'a mut Ctx,
+    name: &'static str,
+}
+
+impl<'a> Job for OpeningJob<'a> {
+    type Out = ();
+    fn run<B: SimField, H: ElementHasher<BaseField = B> + Send + Sync + 'static>(self) {
+        let (ch, ctx) = (self.ch, self.ctx);
+        let depth = 1 + ch.index("open.depth", 9) as u32;
+        let n = 1usize << depth;
+        let salt = ch.u64("open.salt");
+        let leaves: Vec<H::Digest> = (0..n).map(|i| H::hash(&[(i as u64 ^ salt).to_le_bytes(), salt.rotate_left(13).to_le_bytes()].concat())).collect();
+        let tree = crypto::MerkleTree::<H>::new(leaves).expect("harness: tree");
+        let k = (ch.biased("open.k", 1, 255.min(n) as u64, &[1, 2, 3, 8, 255])) as usize;
+        let mut positions: Vec<usize> = vec![];
+        while positions.len() < k {
+            let p = ch.index("open.pos", n);
+            if !positions.contains(&p) {
+                positions.push(p);
+            }
+        }
+        let bp = tree.prove_batch(&positions).expect("harness: prove_batch");
+        let bytes = bp.serialize_nodes();
+        ctx.probe(self.name);
+        ctx.event_with("opening", simcore::rng::fnv1a(&bytes), || format!("{}: depth {depth}, {k} positions, {} bytes of nodes", self.name, bytes.len()));
+        let same = |a: &crypto::BatchMerkleProof<H>| a.leaves == bp.leaves && a.nodes == bp.nodes && a.depth == bp.depth;
+        // in-memory reader
+        let mut r = SliceReader::new(&bytes);
+        match guard(|| crypto::BatchMerkleProof::<H>::deserialize(&mut r, bp.leaves.clone(), depth as u8)) {
+            Ok(Ok(b)) if same(&b) && !r.has_more_bytes() => {},
+            Ok(Ok(_)) => ctx.violation(format!("C12/BatchMerkleProof/{}/SliceReader/value-differs", self.name), format!("depth {depth}, positions {:?}", &positions[..positions.len().min(8)])),
+            Ok(Err(e)) => ctx.violation(
+                format!("C12/BatchMerkleProof/{}/SliceReader/decode-error {}", self.name, crate::pipe::variant_name(&format!("{:?}", e))),
+                format!("the node vectors written by serialize_nodes cannot be read back: {e}; depth {depth}, {k} positions"),
+            ),
+            Err(p) => ctx.violation(format!("C12/BatchMerkleProof/{}/SliceReader/panic {}", self.name, p.signature()), format!("{}:{} {}", p.file, p.line, p.msg)),
+        }
+        // streaming reader over a chunking source
+        let style = CHUNK_STYLES[ch.weighted("src.style", &[1, 2, 2, 3, 3, 3])];
+        let kk = ch.biased("src.k", 1, 300, &[2, 3, 7, 8, 9, 255, 256]) as usize;
+        let stats = ReadStats::default();
+        let res = {
+            let world = RefCell::new(World { ch, ctx });
+            let mut src = SimRead::new(&world, &bytes, style, kk, ReadFaults::default(), &stats);
+            let mut ad = ReadAdapter::new(&mut src);
+            stats.begin_op(64);
+            guard(|| {
+                let b = crypto::BatchMerkleProof::<H>::deserialize(&mut ad, bp.leaves.clone(), depth as u8);
+                (b, ad.has_more_bytes())
+            })
+        };
+        match res {
+            Ok((Ok(b), false)) if same(&b) => {},
+            Ok((Ok(_), _)) => ctx.violation(format!("C12/BatchMerkleProof/{}/ReadAdapter/value-differs", self.name), format!("depth {depth}, {k} positions")),
+            Ok((Err(e), _)) => ctx.violation(
+                format!("C12/BatchMerkleProof/{}/ReadAdapter/decode-error {}", self.name, crate::pipe::variant_name(&format!("{:?}", e))),
+                format!("the node vectors written by serialize_nodes cannot be read back through ReadAdapter: {e}; depth {depth}, {k} positions"),
+            ),
+            Err(p) => ctx.violation(format!("C12/BatchMerkleProof/{}/ReadAdapter/panic {}", self.name, p.signature()), format!("{}:{} {}", p.file, p.line, p.msg)),
+        }
+    }
+}
+
+fn openings(ch: &mut Chooser, ctx: &mut Ctx) {
+    // one configuration per hasher
+    let (ci, name) = [(0usize, "blake3_256"), (3, "blake3_192"), (6, "sha3_256"), (9, "rp62_248"), (10, "rp64_256"), (11, "rp_jive64_256")][ch.index("open.hasher", 6)];
+    dispatch(CONFIGS[ci], OpeningJob { ch, ctx, name });
+}
+
 fn scenario(_info: &RunInfo, ch: &mut Chooser, ctx: &mut Ctx) {
-    match ch.weighted("family", &[5, 4, 2]) {
+    match ch.weighted("family", &[5, 4, 2, 1]) {
         0 => primitives(ch, ctx),
         1 => algebra(ch, ctx),
+        3 => openings(ch, ctx),
         _ => {
             // every (field, hasher) pair: digest widths of 24, 31 and 32 bytes on the wire
             let cfg = gen_cfg(ch, true);
@@ -529,7 +607,7 @@ pub fn spec() -> CheckSpec {
         id: "C12",
         level: "exploration",
         build: "serial",
-        rule: "one run = one value of one serializable type (integers, the variable-length size encoding at 2^(7k)-1 / 2^(7k) / 2^(7k)+1, 127/128/129, 2^56, u64::MAX; Option, tuples, arrays, String incl. multi-byte characters, Vec / BTreeMap / BTreeSet at lengths 0, 1, 127..129, 255..257, nestings; elements of the three base fields and their quadratic / cubic extensions at 0, 1, p-1 and random; byte and element digests of all six hashers; FieldExtension; ProofOptions at every boundary tuple; TraceInfo with 255 columns, auxiliary segments with 0..255 random elements, lengths 2^3..2^31, 0 / 1 / 65534 / 65535 metadata bytes; Context; and Commitments, Queries, OodFrame, FriProof and whole Proofs produced by the protocol sim incl. maximal query counts and remainders and the optional GKR proof absent / empty / 1 / 127..129 / 300..499 bytes) x a 0..8-byte foreign suffix x one chunking of the simulated byte source x one schedule of short / interrupted writes of the simulated sink. decode(encode(x)) == x and exactly the written bytes are consumed on SliceReader, std::io::Cursor and ReadAdapter; the sink receives to_bytes(x). Non-trivial = a non-maximal chunking or short write fired; distinct = distinct event-log digests.".into(),
+        rule: "one run = one value of one serializable type (integers, the variable-length size encoding at 2^(7k)-1 / 2^(7k) / 2^(7k)+1, 127/128/129, 2^56, u64::MAX; Option, tuples, arrays, String incl. multi-byte characters, Vec / BTreeMap / BTreeSet at lengths 0, 1, 127..129, 255..257, nestings; elements of the three base fields and their quadratic / cubic extensions at 0, 1, p-1 and random; byte and element digests of all six hashers; FieldExtension; ProofOptions at every boundary tuple; TraceInfo with 255 columns, auxiliary segments with 0..255 random elements, lengths 2^3..2^31, 0 / 1 / 65534 / 65535 metadata bytes; Context; the node vectors of batch Merkle openings (serialize_nodes / deserialize) for all six hashers, depth 1..9, 1..255 positions; and Commitments, Queries, OodFrame, FriProof and whole Proofs produced by the protocol sim with every (field, hasher) pair incl. maximal query counts and remainders and the optional GKR proof absent / empty / 1 / 127..129 / 300..499 bytes) x a 0..8-byte foreign suffix x one chunking of the simulated byte source x one schedule of short / interrupted writes of the simulated sink. decode(encode(x)) == x and exactly the written bytes are consumed on SliceReader, std::io::Cursor and ReadAdapter; the sink receives to_bytes(x). Non-trivial = a non-maximal chunking or short write fired; distinct = distinct event-log digests.".into(),
         interleaving_measure: "distinct (value, suffix, source chunk boundaries, sink write boundaries) histories".into(),
         real: vec!["every Serializable / Deserializable impl listed in the rule", "SliceReader, Cursor impl, ReadAdapter, ByteWriter for std::io::Write"],
         stub: vec!["the byte source and the byte sink (SimRead / SimWrite)"],
